@@ -45,6 +45,36 @@ class ScriptOdd(ScriptError):
         self.extra = extra
 
 
+class ScriptTwist(ScriptError):
+    """A failure whose constructor accepts its own .args but transforms them (as `super().__init__(f"code {code}")`
+    does): constructed with (kind, id + 1000) it has args (kind, id); re-created from its args it would have
+    (kind, id - 1000).  Ops with b = 3 use it."""
+
+    def __init__(self, kind, code):
+        super().__init__(kind, code - 1000)
+
+
+class ScriptPicky(ScriptError):
+    """A failure whose constructor refuses its own .args with something other than TypeError; ops with b = 4."""
+
+    def __init__(self, kind, code, token=None):
+        if token is None:
+            raise ValueError("token required")
+        super().__init__(kind, code)
+
+
+def odd_failure(b, kind, uid):
+    if b == 1:
+        return ScriptAbort(kind, uid)
+    if b == 2:
+        return ScriptOdd(kind, uid, "payload")
+    if b == 3:
+        return ScriptTwist(kind, uid + 1000)
+    if b == 4:
+        return ScriptPicky(kind, uid, token=1)
+    return ScriptError(kind, uid)
+
+
 def V(k, a=0, s=()):
     return {"k": k, "a": int(a), "s": [int(x) for x in s]}
 
@@ -267,9 +297,7 @@ class Machine:
                 if k == "succeed":
                     ev.succeed(("v", o["a"]))
                 else:
-                    b = o.get("b")
-                    ev.fail(ScriptAbort("x", o["a"]) if b == 1 else ScriptOdd("x", o["a"], "payload") if b == 2
-                            else ScriptError("x", o["a"]))
+                    ev.fail(odd_failure(o.get("b"), "x", o["a"]))
             except RuntimeError:
                 self.L("E", P, False, V("RuntimeError"))
             return None
@@ -429,8 +457,7 @@ class Machine:
             if k == "return":
                 return ("ret", pid)
             if k == "raise":
-                b = o.get("b")
-                raise (ScriptAbort("exc", pid) if b == 1 else ScriptOdd("exc", pid, "payload") if b == 2 else ScriptError("exc", pid))
+                raise odd_failure(o.get("b"), "exc", pid)
             ev = None
             if k == "yield":
                 if self.valid(o, pid):
@@ -661,7 +688,7 @@ class Chooser:
             if k in ("succeed", "fail"):
                 c_ = self.users(("ev",))
                 if c_:
-                    return {"k": k, "a": rng.choice(c_), "b": rng.choice([1, 2]) if (k == "fail" and rng.random() < 0.4) else 0, "c": 0, "s": []}
+                    return {"k": k, "a": rng.choice(c_), "b": rng.choice([1, 2, 3, 4]) if (k == "fail" and rng.random() < 0.4) else 0, "c": 0, "s": []}
             if k == "trigger":
                 c_ = self.users(("ev",))
                 src = [u for u in self.users() if m.events[u] is not None and m.events[u].triggered]
@@ -725,7 +752,7 @@ class Chooser:
                 if u:
                     return dict(Z, k="yield", a=rng.choice(u), c=1)
             if k == "raise" and not is_top:
-                return {"k": k, "a": 0, "b": rng.choice([1, 2]) if rng.random() < 0.4 else 0, "c": 0, "s": []}
+                return {"k": k, "a": 0, "b": rng.choice([1, 2, 3, 4]) if rng.random() < 0.4 else 0, "c": 0, "s": []}
             if k == "return" and not is_top and not (g.get("resources") and self.holds_any(P)):
                 return {"k": k, "a": 0, "b": 0, "c": 0, "s": []}
             if is_top and k in ("run", "step"):
